@@ -195,6 +195,9 @@ def c02(ctx):
     ctx.sim("noise", 100 if q else 2000, LOOP, "MonLoop_C02.cfg", seed_off=1, nontrivial=has_noise, extra_args=[])
     # many rounds: the sequence offset of every regime crosses the buffer size and the wrap-around point
     ctx.sim("long", 8 if q else 120, LOOP, "MonLoop_C02.cfg", seed_off=2, nontrivial=has_genuine, conf=CONF, batch=4 if q else 20)
+    # beyond the property: the channel's table of pending TCP connects (TcpTable.tla) - take / expire / evict, drift only
+    ctx.model("mc/MC_TcpTable.tla", "MC_TcpTable.cfg", workers=6)
+    ctx.sim("tcp", 45 if q else 900, "conf/ConfTcp.tla", "ConfTcp.cfg", seed_off=4, extra_args=["--snap", "none"], drift_only=True, batch=45 if q else 150)
     # UDP paris / dublin without privileges (F28): refused at start, or every genuine response recognised
     ctx.sim("unpriv", 24 if q else 240, LOOP, "MonLoop_C02.cfg", seed_off=3)
     ctx.write_evidence("model_checking", "model: MC_Wire - Decode(Quote(Encode(p), v)) = p.seq, acceptance, rejection of every foreign variation and injectivity for every supported cell x sequence in the named set x quotation variation; "
